@@ -635,6 +635,18 @@ def check_text_escape(repo: Repo, rep: Report):
         return _MISSING
 
     classes = list(TEXT_CLASSES)
+    # what the reader makes of a backslash depends on the length of the run it is in and on what follows the run: every text
+    # of up to three characters over an alphabet with one character per reader class, and longer runs in front of u / U / a
+    # character that needs an escape itself
+    import itertools
+
+    alphabet = ["\\", "u", "U", "0", "a", "\n", "\xe9", "\x01", "\u20ac"]
+    for n_ in (1, 2, 3):
+        for tup in itertools.product(alphabet, repeat=n_):
+            classes.append(("text:" + "".join(tup).encode("unicode_escape").decode("ascii"), "".join(tup)))
+    for run in (2, 3, 4, 5):
+        for tail in ("u0041", "U00000041", "\xe9", "\x01", "n", ""):
+            classes.append((f"backslash-run-{run}-before-{tail.encode('unicode_escape').decode('ascii') or 'end'}", "x" + "\\" * run + tail))
     consts = set()
     for f in (eb, va, repo.lookup("fickling.fickle.raw_unicode_escape")):
         if isinstance(f, FuncInfo):
@@ -683,7 +695,7 @@ def _big(n):
 
 INT_REPS = [0, 1, -1, 127, 128, -128, -129, 255, 256, 257, 65535, 65536, 65537, _big(31) - 1, _big(31), _big(31) + 1, -_big(31), -_big(31) - 1, _big(32) - 1, _big(32), _big(63) - 1, _big(63), _big(63) + 1, -_big(63), -_big(63) - 1, _big(64), _big(100), -_big(100)]
 FLOAT_REPS = [0.0, -0.0, 1.5, -2.25, 1e300, 5e-324, float("inf"), float("-inf"), float("nan"), 3.0]
-STR_REPS = ["", "a", "123", "-5", "Az09 ~", "it's", 'say "hi"', "a\\b", "\\u0041", "a\nb", "a\rb", "\x00", "\x1a\x7f", "\x80\xe9\xff", "\u0100\u20ac", "\U0001f600", "\ud800", "\u200b", "x" * 255, "x" * 256, "\xe9" * 127, "\xe9" * 128, "\u20ac" * 85, "\u20ac" * 86]
+STR_REPS = ["", "a", "123", "-5", "Az09 ~", "it's", 'say "hi"', "a\\b", "\\u0041", "a\nb", "a\rb", "\x00", "\x1a\x7f", "\x80\xe9\xff", "\u0100\u20ac", "\U0001f600", "\ud800", "\udcc3\udca9", "name-\udce9.txt", "\udc80", "\\\\u0041", "C:\\\\Users\\\\me", "\\\\\\u0041", "a\\\\\xe9", "\\\\", "\u200b", "x" * 255, "x" * 256, "\xe9" * 127, "\xe9" * 128, "\u20ac" * 85, "\u20ac" * 86]
 BYTES_REPS = [b"", b"a", b"123", b"\x00\xff", b"'", b"\n", b"\\", b"x" * 255, b"x" * 256]
 OTHER_REPS = [None, (1,), [1], {"a": 1}, 1 + 2j, bytearray(b"ab")]
 
